@@ -93,7 +93,8 @@ impl<W: WorldSpec> Engine<W> {
                     }
                 }
             }
-            if self.cfg.hooks {
+            // the full layout dump is O(capacity): for very large capacities only every 8th step
+            if self.cfg.hooks && (cap <= 8192 || self.step % 8 == 0) {
                 self.rep_invariant(wid, ai);
             }
             #[cfg(feature = "events")]
